@@ -214,12 +214,15 @@ impl boxworks::TextPreprocessor for TextPreprocessorImpl {
             // TeX.2021.1043
             if self.space_factor.0 >= 2000 && !self.params.extra_space_skip.is_zero() {
                 self.params.extra_space_skip
-            } else if !self.params.space_skip.is_zero() {
-                self.params.space_skip
             } else {
-                // TeX.2021.1042
-                let mut g = self.fonts[self.current_font as usize].default_space;
+                let mut g = if !self.params.space_skip.is_zero() {
+                    self.params.space_skip
+                } else {
+                    // TeX.2021.1042
+                    self.fonts[self.current_font as usize].default_space
+                };
                 // TeX.2021.1044
+                // The glue is modified according to the space factor even if it is \spaceskip.
                 if self.space_factor.0 >= 2000 {
                     g.width += self.fonts[self.current_font as usize].extra_space;
                 }
